@@ -74,6 +74,13 @@ func (r *c28Run) Setup(s *sim.Sim) {
 			r.Steps = append(r.Steps, c28Step{Kind: "remove", Node: p.Intn(r.Nodes)})
 		case 2:
 			r.Steps = append(r.Steps, c28Step{Kind: "sleep", Ms: sim.Pick(p, 1, 10, 60, 250)})
+		case 3:
+			if p.Intn(2) == 0 {
+				// the answer to the CreateMonitoredItems request is held back beyond the caller's deadline
+				r.Steps = append(r.Steps, c28Step{Kind: "add-late-response", Node: p.Intn(r.Nodes), Ms: sim.Pick(p, 30, 80, 200)})
+			} else {
+				r.Steps = append(r.Steps, c28Step{Kind: "write", Writer: p.Intn(r.Writers), Node: p.Intn(r.Nodes)})
+			}
 		default:
 			r.Steps = append(r.Steps, c28Step{Kind: "write", Writer: p.Intn(r.Writers), Node: p.Intn(r.Nodes)})
 		}
@@ -118,7 +125,6 @@ func (r *c28Run) Main(s *sim.Sim) {
 	handle := func(m *monitor.DataChangeMessage) {
 		if m.Error != nil {
 			s.Probe("message-with-error")
-			s.Probe("message-with-error:" + m.Error.Error())
 			return
 		}
 		if m.DataValue == nil || m.Value == nil {
@@ -169,6 +175,7 @@ func (r *c28Run) Main(s *sim.Sim) {
 		return
 	}
 	monitored := map[int]bool{}
+	maybe := map[int]bool{}
 	for _, i := range r.Initial {
 		monitored[i] = true
 	}
@@ -204,7 +211,7 @@ func (r *c28Run) Main(s *sim.Sim) {
 				wg.Wait()
 			}
 		case "add":
-			if !monitored[st.Node] {
+			if !monitored[st.Node] && !maybe[st.Node] {
 				if err := sub.AddNodeIDs(ctx, nid(st.Node)); err != nil {
 					s.Fail("C28", "add-failed", "add", "AddNodeIDs(%v): %v", nid(st.Node), err)
 					return
@@ -212,6 +219,30 @@ func (r *c28Run) Main(s *sim.Sim) {
 				monitored[st.Node] = true
 				s.Probe("node-added")
 				s.Nontrivial()
+			}
+		case "add-late-response":
+			if !monitored[st.Node] && !maybe[st.Node] {
+				conns := s.Net.Conns()
+				if len(conns) == 0 {
+					break
+				}
+				mine := conns[0] // the monitoring client connected first
+				mine.S2C.StallUntil = s.Now() + time.Duration(st.Ms)*time.Millisecond
+				s.Fault("stall")
+				actx, cancel := context.WithTimeout(ctx, time.Duration(st.Ms/3)*time.Millisecond)
+				err := sub.AddNodeIDs(actx, nid(st.Node))
+				cancel()
+				if err == nil {
+					monitored[st.Node] = true
+					s.Probe("node-added")
+				} else {
+					// the server may well have created the item: the node is neither required
+					// to converge nor forbidden to deliver; what it delivers must still be its own
+					maybe[st.Node] = true
+					s.Probe("add-timed-out")
+				}
+				s.Nontrivial()
+				time.Sleep(time.Duration(st.Ms) * time.Millisecond)
 			}
 		case "remove":
 			if monitored[st.Node] {
